@@ -96,6 +96,12 @@ def worker(cfg, tier='quick'):
             paths = eng.explore(fn)
         col.absorb(eng)
         qv = [c.t for c in q]
+        fresh_und = getattr(pc, cls_name)(*size)
+        lt.validate_paths_at(
+            col, cfg + '#getdef', paths, qv, [c for c in qc if len(c) == qd],
+            lambda loc: (dict(fresh_und.get_deformation(loc, name, **kw)),
+                         fresh_und.qubit_axis(loc) if name == 'XZZX' and axis else None),
+            lambda v, sub: (dict(v[0]), lt.concretise(v[1], sub)))
         wit_q = lambda m, qv=qv: dict(q=[m.eval(v, model_completion=True).as_long() for v in qv])
         bad_bij, bad_inv, bad_spec = [], [], []
         for p in paths:
